@@ -217,6 +217,8 @@ fn scenarios_c04(tier: &str) -> Vec<Scenario> {
             ("cone(I,2.0)", id, 2.0, 1.95),
             ("cone(I,2.5)", id, 2.5, 2.45),
             ("cone(Rx90,1.0)", qa(x, 90.0), 1.0, 0.95),
+            // a centre with every quaternion component non-zero (a hand-written product shows its signs only there)
+            ("cone(Rdiag100,1.2)", qa([1.0, 1.0, 0.3], 100.0), 1.2, 1.15),
         ] {
             // alphabet: rotations about x, y, z by +-scale (inside the cone around its centre)
             let c = centre;
